@@ -224,6 +224,26 @@ VarOutcome(s, f, vh, primed, terms) ==
 
 CreateEdgeForVar(s, f, vh, primed, terms) == Produce(s, f, VarOutcome(s, f, vh, primed, terms))
 
+\* Expert interface: one node at level lvl (of a set forest) assembled from an
+\* unpacked node and reduced.  kids: sequence of [i, c, v] - index, child edge
+\* slot (or -1 for a terminal of value v).  The children must not depend on the
+\* variables at or above lvl; the result selects the child by the digit at lvl.
+NodeOutcome(s, f, lvl, kids) ==
+    IF ~LiveEdge(s) \/ ~LiveForest(f) \/ edges[s].f # f THEN Fail("ANY")
+    ELSE IF fors[f].rel \/ \E x \in 1..Len(kids) : kids[x].c >= 0 /\ (~LiveEdge(kids[x].c) \/ edges[kids[x].c].f # f) THEN Unmodelled
+    ELSE
+    LET F  == fors[f]
+        ds == FDS(F)
+        W  == Weights(ds)
+        kidAt(j) == {x \in 1..Len(kids) : kids[x].i = j}
+    IN Ok([i \in 1..NPts(F) |->
+              LET K == kidAt(Digit(i, lvl, ds, W)) IN
+              IF K = {} THEN Transparent(F)
+              ELSE LET k == kids[CHOOSE x \in K : TRUE] IN
+                   IF k.c >= 0 THEN edges[k.c].fn[i] ELSE k.v])
+
+BuildNode(s, f, lvl, kids) == Produce(s, f, NodeOutcome(s, f, lvl, kids))
+
 -----------------------------------------------------------------------------
 (* Operations *)
 
